@@ -237,7 +237,7 @@ def transfer(method, src, dst, roots, scratch):
 
 
 # ------------------------------------------------------------------------------------------------ histories
-RUNS = ["chain", "chain-edit", "guard", "fail", "file", "tags", "noprov"]
+RUNS = ["chain", "chain-edit", "guard", "fail", "file", "tags", "noprov", "multi"]
 TAGOPS = ["tag-add-exec", "tag-update-exec", "tag-rm-exec", "tag-add-value"]
 
 
@@ -247,22 +247,29 @@ def do_step(repo, step, k, fpath):
     from checks import c02, c20_tags
     from engine import crash
 
+    XT = [("k", 0)]  # every execution starts with a tag k=0, so that update / rm commands always supersede something
     if step in RUNS:
         noprov_opts = {"mid": {"prov": False}} if step == "noprov" else None
         bodies = {"leaf": 1} if step == "chain-edit" else {}
         E.define_all(bodies, noprov_opts)
         if step in ("chain", "chain-edit", "noprov"):
-            wl = lambda env: [env.run(E.T("top")(1))]  # noqa: E731
+            wl = lambda env: [env.run(E.T("top")(1), tags=XT)]  # noqa: E731
+        elif step == "multi":
+            # one argument assembled from two task results (two upstream call nodes), one through a cond
+            from checks import c21_legs
+
+            R = c21_legs.replay_tasks(0)
+            wl = lambda env: [env.run(R["outer"]("list"), tags=XT), env.run(R["outer"]("kw-cond"), tags=XT)]  # noqa: E731
         elif step == "guard":
-            wl = lambda env: [env.run(E.T("guard")(1))]  # noqa: E731
+            wl = lambda env: [env.run(E.T("guard")(1), tags=XT)]  # noqa: E731
         elif step == "fail":
-            wl = lambda env: [env.run(E.T("boom")(1))]  # noqa: E731
+            wl = lambda env: [env.run(E.T("boom")(1), tags=XT)]  # noqa: E731
         elif step == "file":
             c02.write_file(fpath, 0)
-            wl = lambda env: [env.run(E.T("fmain")(fpath))]  # noqa: E731
+            wl = lambda env: [env.run(E.T("fmain")(fpath), tags=XT)]  # noqa: E731
         else:
             REG = c20_tags.make_tasks(False)
-            wl = lambda env: [env.run(REG["main"](["step", "val-tag", "job-tag", "exec-tag", "inline-val"]), tags=[("run", "r")])]  # noqa: E731
+            wl = lambda env: [env.run(REG["main"](["step", "val-tag", "job-tag", "exec-tag", "inline-val"]), tags=[("run", "r")] + XT)]  # noqa: E731
         crash.run_workload(wl, repo.db, id_salt=k + 1)
         return
     con = sqlite3.connect(repo.db)
@@ -306,6 +313,13 @@ def selections(db, thorough):
         sel.append(("child-job", [job[0]]))
     if node:
         sel.append(("call-node", [node[0]]))
+    con = sqlite3.connect(db)
+    try:
+        per_task = con.execute("select task_name, min(call_hash) from call_node group by task_name order by task_name").fetchall()
+    finally:
+        con.close()
+    for tname, ch in per_task:
+        sel.append((f"call-node-of:{tname.split('.')[-1]}", [ch]))
     if val:
         sel.append(("value", [val[0]]))
     return sel, execs
@@ -327,15 +341,30 @@ def explore_history(arg):
     shutil.rmtree(root, ignore_errors=True)
     os.makedirs(root)
     fpath = os.path.join(root, "input.txt")
-    A, B = Repo(root, "A"), Repo(root, "B")
-    A.configure([B])
+    A, B, C = Repo(root, "A"), Repo(root, "B"), Repo(root, "C")
+    A.configure([B, C])
     B.configure([A])
+    C.configure([A])
     viol = []
     stats = {"transfers": 0, "rows_compared": 0, "cache_runs": 0, "states": 1}
     H = "+".join(hist)
     for k, step in enumerate(hist):
         do_step(A, step, k, fpath)
+        # repository C is synchronised after every step (incremental transfers: later edits of records it already holds)
+        try:
+            transfer(methods[k % len(methods)], A, C, None, root)
+            stats["transfers"] += 1
+        except Exception as e:  # noqa: BLE001
+            viol.append((f"incremental:transfer-raises:{type(e).__name__}", {"history": list(hist[: k + 1])}, f"{H}: sync after step {k + 1}: {type(e).__name__}: {e}"))
     src = raw_dump(A.db)
+    if len(hist) > 1 and not viol:
+        inc = raw_dump(C.db)
+        want_inc = expected_after({t: set() for t in TABLES}, closure(src, [r[0] for r in src["execution"]]))
+        d = diff(want_inc, inc)
+        if d:
+            t = sorted(d)[0]
+            viol.append((f"incremental:destination-differs-after-stepwise-sync:{t}", {"history": list(hist), "selection": "all", "method": "after every step"},
+                         f"{H}, destination synchronised after every step: differs from the reference closure of the final source: {d}"))
     # precondition of the reference model (C24's business if it ever fails): superseded <=> has a child edit
     parents = {p for p, _c in src["tag_edit"]}
     if {r[0] for r in src["tag"] if r[0] not in parents} != src["current"]:
@@ -345,7 +374,7 @@ def explore_history(arg):
     last_kind = "tagop" if hist[-1] in TAGOPS else hist[-1]
     for sname, roots in sel:
         want = expected_after(empty, closure(src, roots if roots else execs))
-        for method in methods:
+        for method in (methods[:1] if sname.startswith("call-node-of:") else methods):
             B.reset()
             case = {"history": list(hist), "selection": sname, "method": method}
             try:
@@ -357,7 +386,7 @@ def explore_history(arg):
                 if d:
                     t = sorted(d)[0]
                     side = "missing" if d[t]["missing"] else "unexpected"
-                    viol.append((f"transfer-differs:{t}:{side}:sel={sname.split('-')[0]}", case, f"{H} / {sname} / {method}: destination differs from the reference closure of the source: {d}"))
+                    viol.append((f"transfer-differs:{t}:{side}:sel={sname.split(':')[0].split('-')[0]}", case, f"{H} / {sname} / {method}: destination differs from the reference closure of the source: {d}"))
                     continue
                 if got["fk"] and sname != "child-job":  # a job without its execution necessarily points outside the transferred set
                     viol.append((f"dangling-reference:{got['fk'][0][0]}", case, f"{H} / {sname} / {method}: foreign_key_check {got['fk'][:3]}"))
@@ -537,12 +566,12 @@ def run(ctx):
         "states": len(hs) + len(pairs), "transitions": tot("transfers"), "traces_validated_against_impl": tot("transfers"),
         "source_histories": len(hs), "two_repository_pairs": len(pairs), "rows_compared": tot("rows_compared"), "post_transfer_cache_runs": tot("cache_runs"),
         "history_length": L, "exhaustive": True,
-        "rule": f"every source history of <= {L} steps (first a run; 7 run kinds: chain, chain with an edited leaf, caught failure, uncaught failure, File "
-        "value, applied tags of every entity kind, prov=False subtree; 4 CLI tag commands add/update/rm on the first execution, add on a value) x root "
-        "selection (all, each execution, thorough: pairs, a child job, a call node, a value) x method (push, pull, export+import through the real CLI"
+        "rule": f"every source history of <= {L} steps (first a run; 8 run kinds: chain, chain with an edited leaf, caught failure, uncaught failure, File "
+        "value, applied tags of every entity kind, prov=False subtree, arguments with several upstream calls; 4 CLI tag commands add/update/rm on the first execution, add on a value) x root "
+        "selection (all, each execution, thorough: pairs, a child job, a call node, a value, the first call node of every task) x method (push, pull, export+import through the real CLI"
         f"{'' if not ctx.quick else '; at the longest length every third history uses all three methods, the others one'}): destination rows == "
         "reference closure computed by the harness from a raw SQL dump of the source, tag currentness structural, foreign_key_check clean, repeat adds "
-        "nothing; two repositories with different histories synchronised in both orders converge to the union; after a full transfer every next "
+        "nothing; a third repository synchronised after EVERY step of the history (incremental transfers) ends equal to the closure of the final source; two repositories with different histories synchronised in both orders converge to the union; after a full transfer every next "
         "configuration (task edits, file change) gives the ground-truth result on the destination and runs at least the functions the source runs",
         "samples": [list(hs[0]), list(hs[-1])],
     }, "assumptions": ["SQLite repositories; ids and clocks are logical (seams) so two repositories never share execution/job ids",
